@@ -17,6 +17,8 @@ pub struct Case {
     pub bw: usize,
     pub bh: usize,
     pub colours: Colours,
+    /// Plane::new paddings of the source frame
+    pub pads: [(usize, usize); 3],
 }
 #[derive(Debug, Clone)]
 pub enum Colours {
@@ -66,19 +68,29 @@ impl Case {
         }
     }
     fn json_with(&self, cols: &[[f32; 3]], bw: usize, bh: usize) -> Value {
-        json!({"prop":"C09","cfg":cfg_json(&self.cfg),"storage": if self.u8_storage {"u8"} else {"u16"},"bw":bw,"bh":bh,
+        json!({"prop":"C09","cfg":cfg_json(&self.cfg),"storage": if self.u8_storage {"u8"} else {"u16"},"bw":bw,"bh":bh,"pads":self.pads,
                "colours": cols.iter().map(|p| px2j(*p)).collect::<Vec<_>>()})
     }
 }
 
 pub fn strategy() -> BoxedStrategy<Case> {
     (std_matrix(), sup_transfer(), pick_from(&[0usize, 1, 2, 3, 4, 5, 6, 7, 8, 9]), any::<bool>(), depth_storage(), pick_from(&SUBSAMPLINGS), 0u8..6, any::<u64>(), 1usize..=8, 1usize..=8)
-        .prop_map(|(m, t, pi, full, (depth, u8s), ss, stratum, seed, bw, bh)| Case {
-            cfg: cfg(m, t, physical_primaries()[pi], depth, full, ss),
-            u8_storage: u8s,
-            bw,
-            bh,
-            colours: Colours::Seeded { stratum, seed },
+        .prop_map(|(m, t, pi, full, (depth, u8s), ss, stratum, seed, bw, bh)| {
+            // storage geometry is part of "every image": independent per-plane paddings, and now and then a
+            // thin image wider than 1024 / 2048 pixels
+            let mut e = Expand(seed ^ 0x0909);
+            let mut pads = [(0usize, 0usize); 3];
+            if e.below(2) == 0 {
+                for p in pads.iter_mut() {
+                    *p = (e.below(33) as usize, e.below(4) as usize);
+                }
+            }
+            let (bw, bh) = match e.below(16) {
+                0 => ((1025 + e.below(1200) as usize) >> ss.0, 1),
+                1 => ((2049 + e.below(2100) as usize) >> ss.0, 1),
+                _ => (bw, bh),
+            };
+            Case { cfg: cfg(m, t, physical_primaries()[pi], depth, full, ss), u8_storage: u8s, bw: bw.max(1), bh, colours: Colours::Seeded { stratum, seed }, pads }
         })
         .boxed()
 }
@@ -100,8 +112,8 @@ pub fn budget(depth: u8) -> f64 {
 
 type Planes = Vec<(usize, usize, Vec<u16>)>;
 
-fn roundtrip<T: Pixel>(c: &YuvConfig, planes: &[Vec<u16>; 3], w: usize, h: usize) -> Result<(Planes, Planes, YuvConfig, usize, usize), String> {
-    let frame = yuv_frame::<T>(w, h, (c.subsampling_x, c.subsampling_y), [(0, 0); 3], planes, 0);
+fn roundtrip<T: Pixel>(c: &YuvConfig, planes: &[Vec<u16>; 3], w: usize, h: usize, pads: [(usize, usize); 3]) -> Result<(Planes, Planes, YuvConfig, usize, usize), String> {
+    let frame = yuv_frame::<T>(w, h, (c.subsampling_x, c.subsampling_y), pads, planes, 0);
     let yuv = Yuv::<T>::new(frame, *c).map_err(|e| format!("Yuv::new rejected a well-formed frame: {e:?}"))?;
     let xyb = Xyb::try_from(&yuv).map_err(|e| format!("YUV->XYB failed on a supported config: {e:?}"))?;
     if xyb.width() != w || xyb.height() != h {
@@ -133,7 +145,7 @@ pub fn check(case: &Case, st: &mut Stats) -> Result<(), Violation> {
             }
         }
     }
-    let res = catch(|| if case.u8_storage { roundtrip::<u8>(c, &planes, w, h) } else { roundtrip::<u16>(c, &planes, w, h) });
+    let res = catch(|| if case.u8_storage { roundtrip::<u8>(c, &planes, w, h, case.pads) } else { roundtrip::<u16>(c, &planes, w, h, case.pads) });
     let (orig, back, cfg2, w2, h2) = match res {
         Err(p) => return Err(fail(format!("panic: {p}; cfg {}", cfg_json(c)), &cols, case.bw, case.bh)),
         Ok(Err(e)) => return Err(fail(format!("{e}; cfg {}", cfg_json(c)), &cols, case.bw, case.bh)),
@@ -155,12 +167,11 @@ pub fn check(case: &Case, st: &mut Stats) -> Result<(), Violation> {
                 let (x, y) = (i % pw, i / pw);
                 let (bx, by) = if pl == 0 { (x >> ssx, y >> ssy) } else { (x, y) };
                 let col = cols[by * case.bw + bx];
-                return Err(fail(
-                    format!("plane {pl} sample ({x},{y}): {a} came back as {z} (|diff| {d} > budget {b:.2}); colour {:?}; cfg {}", col, cfg_json(c)),
-                    &[col],
-                    1,
-                    1,
-                ));
+                // does the colour fail on its own (1x1 block image, no padding)? otherwise report the whole image
+                let single = Case { cfg: *c, u8_storage: case.u8_storage, bw: 1, bh: 1, colours: Colours::Explicit(vec![col]), pads: [(0, 0); 3] };
+                let alone_fails = if case.bw * case.bh > 1 || case.pads != [(0, 0); 3] { check(&single, &mut Stats::new()).is_err() } else { true };
+                let msg = format!("plane {pl} sample ({x},{y}): {a} came back as {z} (|diff| {d} > budget {b:.2}); colour {:?}; image {}x{} blocks, paddings {:?}; cfg {}", col, case.bw, case.bh, case.pads, cfg_json(c));
+                return Err(if alone_fails { Violation { signature: sig.clone(), message: msg, case: single.json_with(&[col], 1, 1) } } else { fail(msg, &cols, case.bw, case.bh) });
             }
             st.max("max_diff_over_budget", d / b);
         }
@@ -203,7 +214,7 @@ fn all_configs(ctx: &Ctx, st: &mut Stats) -> Vec<Violation> {
     let out = par_sweep(ctx, st, n as u64, |lo, hi, st| {
         for j in lo..hi {
             let c = jobs[j as usize];
-            let case = Case { cfg: c, u8_storage: c.bit_depth == 8 && j % 2 == 0, bw, bh, colours: Colours::Seeded { stratum: (j % 6) as u8, seed: mix64(seed0 ^ j) } };
+            let case = Case { cfg: c, u8_storage: c.bit_depth == 8 && j % 2 == 0, bw, bh, colours: Colours::Seeded { stratum: (j % 6) as u8, seed: mix64(seed0 ^ j) }, pads: [(0, 0), ((j % 7) as usize, 0), (0, (j % 3) as usize)] };
             let mut local = Stats::new();
             local.sample_budget = 0;
             if let Err(v) = check(&case, &mut local) {
@@ -240,8 +251,9 @@ pub fn replay(v: &Value) -> Result<(), String> {
         bw: v.get("bw").and_then(|x| x.as_u64()).unwrap_or(1) as usize,
         bh: v.get("bh").and_then(|x| x.as_u64()).unwrap_or(1) as usize,
         colours: Colours::Explicit(cols),
+        pads: v.get("pads").and_then(|p| serde_json::from_value(p.clone()).ok()).unwrap_or([(0, 0); 3]),
     };
     check(&case, &mut Stats::new()).map_err(|v| v.message)
 }
 
-pub const RULE: &str = "cases = (matrix in 7 standard, transfer in 14 supported, primaries in the 10 physical ones (ST 428 excluded as the statement says), range, depth 8..16, storage, subsampling in 6, image of 1..8 x 1..8 chroma blocks of gamma-encoded in-gamut colours from 6 strata: uniform, greys, cube corners, near black, near white, saturated) generated by proptest, plus an enumeration of the whole configuration space; the image is encoded to codes by the oracle quantiser (nearest H.273 code), pixels constant within each chroma block; path Yuv::new -> Xyb::try_from(&yuv) -> Yuv::try_from((xyb, yuv.config())); oracle: width, height, config equal, every sample within max(1, 0.015*(2^n-1)) codes; non-trivial = image with a non-grey colour; distinct = by hash of (config, colours)";
+pub const RULE: &str = "cases = (matrix in 7 standard, transfer in 14 supported, primaries in the 10 physical ones (ST 428 excluded as the statement says), range, depth 8..16, storage, subsampling in 6, image of 1..8 x 1..8 chroma blocks (one case in eight: a single row wider than 1024 / 2048 pixels), independent per-plane paddings 0..32, of gamma-encoded in-gamut colours from 6 strata: uniform, greys, cube corners, near black, near white, saturated) generated by proptest, plus an enumeration of the whole configuration space; the image is encoded to codes by the oracle quantiser (nearest H.273 code), pixels constant within each chroma block; path Yuv::new -> Xyb::try_from(&yuv) -> Yuv::try_from((xyb, yuv.config())); oracle: width, height, config equal, every sample within max(1, 0.015*(2^n-1)) codes; non-trivial = image with a non-grey colour; distinct = by hash of (config, colours)";
